@@ -4,7 +4,9 @@ import (
 	"bytes"
 	"fmt"
 	"os"
+	"path/filepath"
 	"regexp"
+	"strings"
 	"testing"
 	"unicode/utf8"
 
@@ -420,7 +422,11 @@ func checkC09(ci interface{}, st *Stats) error {
 }
 
 // fileViaDisk writes the bytes to a temporary file and loads it with text.ReadFile.
-func fileViaDisk(data []byte) (*text.File, string, error) {
+func fileViaDisk(data []byte) (*text.File, string, error) { return fileViaDiskSpelled(data, 0) }
+
+// fileViaDiskSpelled: the path handed to text.ReadFile is spelled dir/./base (1), dir//base (2) or
+// dir/../dir/base (3): the same file, and the name the caller used is the file's name.
+func fileViaDiskSpelled(data []byte, spell int) (*text.File, string, error) {
 	// in the shard's own scratch directory when run by ./check, else the system's temp directory
 	tmp, err := os.CreateTemp(os.Getenv("VERIF_OUT"), "verif-readfile-*")
 	if err != nil {
@@ -435,8 +441,19 @@ func fileViaDisk(data []byte) (*text.File, string, error) {
 	if err := tmp.Close(); err != nil {
 		return nil, "", err
 	}
-	f, err := text.ReadFile(name)
-	return f, name, err
+	dir, base := filepath.Split(name)
+	dir = strings.TrimSuffix(dir, "/")
+	spelled := name
+	switch spell {
+	case 1:
+		spelled = dir + "/./" + base
+	case 2:
+		spelled = dir + "//" + base
+	case 3:
+		spelled = dir + "/../" + filepath.Base(dir) + "/" + base
+	}
+	f, err := text.ReadFile(spelled)
+	return f, spelled, err
 }
 
 func isASCII(s string) bool {
